@@ -9,6 +9,10 @@ CONSTANTS
   MaxInFlight = 3
   ForgeBudget = 2
   Classes <- PruneAttackClasses
+  FineIngest = FALSE
+  Batch = FALSE
+  Worker = {}
+  Variant_ReadLatestBeforeBegin = FALSE
   Defect_PruneAfterFailedIngest = FALSE
   Defect_PruneFlagSkipsLatestCheck = FALSE
   Defect_LogIdFromTopicUnchecked = FALSE
